@@ -147,6 +147,12 @@ func (p Precompile) Delegate(
 		if err != nil {
 			return nil, err
 		}
+		// The authorization has to accept the message before the message is executed: a refusal afterwards
+		// (validator not on the allow list, on the deny list) comes too late, because what the message has
+		// done on the Cosmos side is not undone when this call fails.
+		if _, err = stakeAuthz.Accept(ctx, msg); err != nil {
+			return nil, err
+		}
 	}
 
 	// Execute the transaction using the message server
@@ -229,6 +235,12 @@ func (p Precompile) Undelegate(
 		// Check if the authorization grant exists for the caller and the origin
 		stakeAuthz, expiration, err = authorization.CheckAuthzAndAllowanceForGranter(ctx, p.AuthzKeeper, contract.CallerAddress, delegatorHexAddr, &msg.Amount, UndelegateMsg)
 		if err != nil {
+			return nil, err
+		}
+		// The authorization has to accept the message before the message is executed: a refusal afterwards
+		// (validator not on the allow list, on the deny list) comes too late, because what the message has
+		// done on the Cosmos side is not undone when this call fails.
+		if _, err = stakeAuthz.Accept(ctx, msg); err != nil {
 			return nil, err
 		}
 	}
@@ -318,6 +330,12 @@ func (p Precompile) Redelegate(
 		if err != nil {
 			return nil, err
 		}
+		// The authorization has to accept the message before the message is executed: a refusal afterwards
+		// (validator not on the allow list, on the deny list) comes too late, because what the message has
+		// done on the Cosmos side is not undone when this call fails.
+		if _, err = stakeAuthz.Accept(ctx, msg); err != nil {
+			return nil, err
+		}
 	}
 
 	msgSrv := stakingkeeper.NewMsgServerImpl(&p.stakingKeeper)
@@ -401,6 +419,12 @@ func (p Precompile) CancelUnbondingDelegation(
 		// Check if the authorization grant exists for the caller and the origin
 		stakeAuthz, expiration, err = authorization.CheckAuthzAndAllowanceForGranter(ctx, p.AuthzKeeper, contract.CallerAddress, delegatorHexAddr, &msg.Amount, CancelUnbondingDelegationMsg)
 		if err != nil {
+			return nil, err
+		}
+		// The authorization has to accept the message before the message is executed: a refusal afterwards
+		// (validator not on the allow list, on the deny list) comes too late, because what the message has
+		// done on the Cosmos side is not undone when this call fails.
+		if _, err = stakeAuthz.Accept(ctx, msg); err != nil {
 			return nil, err
 		}
 	}
